@@ -278,7 +278,7 @@ PROPS = {
                    "serde human-readable (JSON hex string: core::fmt), ark-ff (not in the harness crate's feature set). Known finding: SCALE fixed encoding of Uint<64> differs from u64's (length-prefixed): changing it changes the wire format",
         technique="Kani contract harnesses on the compiled crate with the codec crates enabled (feature codecs), complete per width",
         units=[],
-        kani=dict(features="codecs", quick=hs("c16", None, r"_w(128|129|192)$|rlp_stream"), thorough=hs("c16"), timeout_quick=3000, timeout_thorough=7200,
+        kani=dict(features="codecs", quick=hs("c16", None, r"_w(128|129|192)$|rlp_stream") + hs("c17", r"scale_compact_m[012]_.*_w65|scale_compact_big_w65|c17_spec_"), thorough=hs("c16") + hs("c17", r"scale_compact|c17_spec_"), timeout_quick=3000, timeout_thorough=7200,
                   bounds="widths 7,8,16,60,64,65 (quick) + 128,129,192 (thorough); all canonical values"),
         known_findings={"scale_fixed_equals_primitive": ["c16::kf_c16_scale_fixed_equals_primitive_w64"]},
         explanation="harness-level contracts; reference encodings written from the format definitions",
@@ -295,8 +295,8 @@ PROPS = {
                    "4/8/16-byte big modes - the generic big-mode arm does not finish); postgres from_sql, serde human-readable, num-bigint not covered (cost); the third-party decoders are executed, not specified",
         technique="Kani contract harnesses over all inputs up to a stated length per width (feature codecs)",
         units=[],
-        kani=dict(features="codecs", quick=hs("c17", None, r"_w(64|16)$|_p\d"), thorough=hs("c17"), timeout_quick=3000, timeout_thorough=7200,
-                  bounds="all byte strings of length 0..BYTES+4 at widths 7,8,60,65 (quick) + 16,64 (thorough)"),
+        kani=dict(features="codecs", quick=hs("c17", None, r"_w(64|16)$|_p\d.*_w(7|8|60)$|_k\d.*_w(60|64)$"), thorough=hs("c17"), timeout_quick=3000, timeout_thorough=7200,
+                  bounds="all byte strings of length 0..BYTES+4; quick: 65 bits (all families) and 7/8/60 for the unpartitioned ones; thorough: + 16, 64 and every partition"),
         explanation="decode specs written from the format definitions; c17_spec_* prove they invert c16's encode specs",
         trusted=COMMON_TRUST + ["Kani stub: alloc::fmt::format (error text)"],
         not_decided=["inputs longer than BYTES+4", "SCALE compact generic big-mode arm", "postgres from_sql", "serde human-readable", "num-bigint"],
